@@ -207,6 +207,23 @@ def with_next():
     return o
 
 
+def next_with_class_values():
+    o = Ovld(name="nxtt")
+
+    def ft(x: type[int]):
+        return ["type[int]"] + o.next(x)
+
+    def fto(x: type[object]):
+        return ["type[object]"] + o.next(x)
+
+    def fo(x: object):
+        return ["object"]
+
+    for g in (ft, fto, fo):
+        o.register(g)
+    return o
+
+
 def priority_chain():
     o = Ovld(name="prio")
 
@@ -278,6 +295,8 @@ CASES = [
     ("fresh_when_a_keyword_argument_does_not_match", lambda: fresh_keyword()(B(), k=B()), ["B,k=B", "A,k=str"]),
     ("two_argument_walk_below_a_tied_rank_with_a_false_condition", lambda: dependent_tied_top_rank(), ["c3", "c2", "c4", "NOMETHOD"]),
     ("next_equivalent", lambda: with_next()(C()), ["C", "B", "A"]),
+    ("next_with_class_valued_arguments", lambda: next_with_class_values()(bool), ["type[int]", "type[object]", "object"]),
+    ("next_with_generic_alias_arguments", lambda: next_with_class_values()(list[int]), ["type[object]", "object"]),
     ("priority_then_specificity", lambda: priority_chain()(B()), ["hi", "B", "obj"]),
     ("nullary", lambda: nullary()(), "NOMETHOD"),
 ]
